@@ -754,10 +754,20 @@ def _must_event_before_exit(fi: FuncInfo, is_event, failure_ok: bool = True):
     return bad
 
 
+_DERIVED: Dict[str, Dict[str, int]] = {}
+
+
 def _linear(e: ast.AST, kinds: Dict[str, str], sign: int, acc: Dict[str, int]) -> bool:
+    # x.total_seconds() is monotone in x: transparent for the comparison
+    if isinstance(e, ast.Call) and call_name(e) == "total_seconds" and isinstance(e.func, ast.Attribute) and not e.args:
+        return _linear(e.func.value, kinds, sign, acc)
     if isinstance(e, ast.BinOp) and isinstance(e.op, (ast.Add, ast.Sub)):
         return _linear(e.left, kinds, sign, acc) and _linear(e.right, kinds, sign if isinstance(e.op, ast.Add) else -sign, acc)
     k = None
+    if isinstance(e, ast.Name) and e.id in _DERIVED:
+        for kk, vv in _DERIVED[e.id].items():
+            acc[kk] = acc.get(kk, 0) + sign * vv
+        return True
     if isinstance(e, ast.Name):
         k = kinds.get(e.id)
     elif isinstance(e, ast.Call) and call_name(e) in ("now", "utcnow"):
@@ -799,6 +809,24 @@ def check_c17(idx: Index, tier: str, res: Result) -> None:
                 ks.add("LAST")
         if len(ks) == 1:
             kinds[name] = ks.pop()
+    # durations derived from the clock and the last access (idle = now - last)
+    derived: Dict[str, Dict[str, int]] = {}
+    for name, vals in single_assignments(sweep.node).items():
+        if len(vals) == 1:
+            acc0: Dict[str, int] = {}
+            if isinstance(vals[0], ast.BinOp) and _linear(vals[0], kinds, 1, acc0) and acc0:
+                derived[name] = acc0
+    # a comparison on a truncated component of such a duration is not a comparison of elapsed time
+    for c in [x for x in ast.walk(sweep.node) if isinstance(x, ast.Compare)]:
+        for a in ast.walk(c):
+            if isinstance(a, ast.Attribute) and a.attr in ("seconds", "days", "microseconds") and isinstance(a.value, ast.Name) and \
+                    (a.value.id in derived or kinds.get(a.value.id) == "TD"):
+                res.find("EXPIRY", "EXPIRY/_timeout_instances/truncated-duration", sweep.loc(c), sweep.qual, src(c),
+                         "the expiry test compares %s: timedelta.%s is only one component of the duration (it wraps every day / drops "
+                         "sub-second parts), not the elapsed time: timeouts of a day or more never expire, sub-second timeouts live too long"
+                         % (src(a), a.attr))
+    _DERIVED.clear()
+    _DERIVED.update(derived)
     found = []
     for n in walk_no_nested(sweep.node):
         if isinstance(n, ast.If):
@@ -807,6 +835,8 @@ def check_c17(idx: Index, tier: str, res: Result) -> None:
                 if _linear(c.left, kinds, 1, acc) and _linear(c.comparators[0], kinds, -1, acc) and "NOW" in acc and "LAST" in acc:
                     found.append((n, c, acc))
     if len(found) != 1:
+        if res.findings:
+            return       # a named deviation was already reported; the remaining rules need the comparison
         raise AnalysisError("expected exactly one expiry comparison in _timeout_instances, found %d" % len(found))
     ifn, cmp_, acc = found[0]
     op = type(cmp_.ops[0])
@@ -1209,6 +1239,27 @@ def check_c16(idx: Index, tier: str, res: Result) -> None:
                                   norm_stmt(n)[:100], "%s writes the module-level object %s outside construction: process-wide state reachable "
                                   "from a request" % (fi.qual, d), key="STATICS/%s/%s" % (fi.qual, d))
     res.floor("module-level writes examined", nmod, 3)
+    # module-level containers that hold mutable values and are used by session-path code: unless deep-copied, every bptk object of
+    # the process shares the nested objects (a shallow ** / dict() / .copy() copies the container only)
+    for rel in (BPTK, SERVER):
+        m = idx.modules[rel]
+        for st in m.tree.body:
+            if not (isinstance(st, ast.Assign) and isinstance(st.targets[0], ast.Name) and isinstance(st.value, (ast.Dict, ast.List, ast.Set))):
+                continue
+            gname = st.targets[0].id
+            vals = st.value.values if isinstance(st.value, ast.Dict) else st.value.elts
+            nested = [v for v in vals if isinstance(v, (ast.Dict, ast.List, ast.Set))]
+            for fi in m.functions.values():
+                for n in walk_no_nested(fi.node):
+                    if isinstance(n, ast.Name) and n.id == gname and isinstance(n.ctx, ast.Load):
+                        # deep copies are fine
+                        deep = any(isinstance(c, ast.Call) and call_name(c) == "deepcopy" and any(x is n for x in ast.walk(c)) for c in ast.walk(fi.node))
+                        ok = deep or not nested
+                        res.check("STATICS", "%s uses the module-level container %s without sharing nested objects" % (fi.qual, gname), ok,
+                                  fi.loc(n), fi.qual, "%s = %s" % (gname, src(st.value)[:60]),
+                                  "%s reads the module-level container %s, whose values include mutable objects (%s), without a deep copy: "
+                                  "every bptk object of the process - i.e. every server instance - then writes into the same nested objects"
+                                  % (fi.qual, gname, ", ".join(src(v) for v in nested)[:60]), key="STATICS/%s/module-template-%s" % (fi.qual, gname))
     # mutable default arguments written in place on the session path
     for qual in ("bptk.begin_session", "bptk.run_step", "bptk.run_scenarios", "bptk.session_results", "bptk.end_session"):
         fi = idx.func(BPTK, qual)
